@@ -24,6 +24,8 @@ Cases == {[fn |-> f, cls |-> c, n |-> N(TRUE)] : f \in {"SetBytes", "SetBytesUnc
          \cup {[fn |-> f, cls |-> "ypat", n |-> 27] : f \in {"SetBytes", "SetBytesUncompressed", "ReadPoint"}}
          \* y with a chosen 2-power component (one or two bits of the dyadic discrete log set)
          \cup {[fn |-> f, cls |-> "ydyad", n |-> 64] : f \in {"SetBytes", "SetBytesUncompressed", "ReadPoint"}}
+         \* pairs: an encoding, then a DIFFERENT encoding whose x has the same limb xor / sum / one limb / limb multiset (canonical digits and stored words)
+         \cup {[fn |-> f, cls |-> "relpair", n |-> (IF Tier = "quick" THEN 120 ELSE 4000)] : f \in {"SetBytes", "SetBytesUncompressed", "ReadPoint"}}
 
 VARIABLE done
 Init == done = FALSE
